@@ -6,7 +6,7 @@ LEVEL = 'exploration'
 BUDGET = {'quick': 30, 'thorough': 400}
 FLOOR = {'quick': 2000, 'thorough': 30000}
 RULE = ('generated selector-list TEXT S (1..3 complex selectors, all combinators with varied spacing) whose identifiers are plain, '
-        'non-ASCII (BMP and astral), or escaped (\\31 23 digit-leading, -\\31 dash-digit, \\. \\: \\/ special characters, escaped '
+        'non-ASCII (letters in and beyond the BMP; at top level also symbols such as emoji and the middle dot), or escaped (\\31 23 digit-leading, -\\31 dash-digit, \\. \\: \\/ special characters, escaped '
         'blank/quote/backslash/brace, hex escapes of letters, of non-ASCII and of punctuation, six-digit and blank-terminated '
         'forms) in type, class, id, attribute-name and attribute-value position; namespaces ns|a *|a |a (also on attributes); '
         'every attribute operator, quoted (both quotes, with escapes, blanks, brackets, commas) and unquoted values, i/s '
@@ -76,96 +76,141 @@ def emitted_selectors(ctx, texts):
 
 
 def judge_texts(ctx, texts):
-    """-> per text: dict(verdict=..., ...).  verdict: 'skip:<why>' | 'ok' | 'viol:<kind>'"""
+    """-> per text a dict with v1 (clause 1: printing is a fixpoint) and v2 (clause 2: emitted selector == printed form);
+    each 'ok:<how>' | 'skip:<why>' | 'viol:<kind>' | 'undecided:<why>', plus P, P2, E when known."""
     n = len(texts)
     r1 = ev.evaluate_many(ctx, ['selector.parse(%s)' % uq(s) for s in texts], inspect=False, chunk=10)
     em = emitted_selectors(ctx, texts)
     ctx.ran(2 * n)
-    out = [None] * n
+    out = [dict() for _ in range(n)]
     need2 = []
     for k in range(n):
-        p, e = r1[k], em[k]
-        if p[0] not in ('ok', 'err') or e[0] == 'other':
-            out[k] = {'verdict': 'undecided', 'why': 'parse=%s rule=%s' % (p[:1], e)}
-        elif p[0] == 'err' and e[0] == 'err':
-            out[k] = {'verdict': 'skip:rejected-by-both'}
-        elif p[0] == 'err':
-            out[k] = {'verdict': 'skip:rejected-by-selector.parse-only', 'E': e[1]}
-        elif e[0] == 'err':
-            out[k] = {'verdict': 'skip:rejected-as-rule-only', 'P': p[1]}
-        else:
+        p, e, d = r1[k], em[k], out[k]
+        if p[0] == 'ok':
+            d['P'] = p[1]
             need2.append(k)
+        elif p[0] == 'err':
+            d['v1'] = 'skip:rejected-by-selector.parse'
+        else:
+            d['v1'] = 'undecided:parse=%s' % (p[:1],)
+        if e[0] == 'ok':
+            d['E'] = e[1]
+        if p[0] == 'err' and e[0] == 'err':
+            d['v2'] = 'skip:rejected-by-both'
+        elif p[0] == 'err' and e[0] == 'ok':
+            d['v2'] = 'skip:rejected-by-selector.parse-only'
+        elif p[0] == 'ok' and e[0] == 'err':
+            d['v2'] = 'skip:rejected-as-rule-only'
+        elif p[0] == 'ok' and e[0] == 'ok':
+            P, E = p[1], e[1]
+            if sg.norm_ws(E) == sg.norm_ws(P):
+                d['v2'] = 'ok:same-text'
+            else:
+                cE, cP = sg.canon_or_none(E, strict=False), sg.canon_or_none(P, strict=False)
+                if cE is not None and cE == cP:
+                    d['v2'] = 'ok:same-canonical-form'
+                else:
+                    d['v2'] = 'viol:emitted-differs'
+                    if sg.canon_or_none(E) is None and sg.canon_or_none(P) is not None:
+                        d['note'] = 'the emitted text is not a selector by the CSS grammar, the printed form is'
+        else:
+            d['v2'] = 'undecided:parse=%s rule=%s' % (p[:1], e)
     r2 = ev.evaluate_many(ctx, ['selector.parse(%s)' % uq(r1[k][1]) for k in need2], inspect=False, chunk=10)
     ctx.ran(len(need2))
     for k, p2 in zip(need2, r2):
-        P, E = r1[k][1], em[k][1]
-        d = {'P': P, 'E': E}
+        d = out[k]
         if p2[0] == 'err':
-            d.update(verdict='viol:printed-form-rejected', P2=p2[1].split('\n')[0][:120])
+            d.update(v1='viol:printed-form-rejected', P2=p2[1].split('\n')[0][:120])
         elif p2[0] != 'ok':
-            d.update(verdict='undecided', why='second parse: %s' % (p2,))
-        elif p2[1] != P:
-            d.update(verdict='viol:print-not-a-fixpoint', P2=p2[1])
-        elif sg.norm_ws(E) == sg.norm_ws(P):
-            d.update(verdict='ok', how='same-text')
+            d['v1'] = 'undecided:second parse %s' % (p2[:1],)
+        elif p2[1] != d['P']:
+            d.update(v1='viol:print-not-a-fixpoint', P2=p2[1])
         else:
-            cE, cP = sg.canon_or_none(E), sg.canon_or_none(P)
-            if cE is None:
-                d.update(verdict='viol:emitted-is-not-a-selector')
-            elif cP is None:
-                d.update(verdict='viol:emitted-differs-from-unparseable-print')
-            elif cE == cP:
-                d.update(verdict='ok', how='same-canonical-form')
-            else:
-                d.update(verdict='viol:emitted-differs')
-        out[k] = d
+            d['v1'] = 'ok:fixpoint'
     return out
 
 
+COARSE = {'esc-leading-digit': 'leading-digit-escape', 'esc-dash-digit': 'dash-digit-escape', 'esc-hex-symbol': 'nonascii-symbol',
+          'nonascii-symbol': 'nonascii-symbol', 'nonascii': 'nonascii'}
+
+
 def tag_sig(tags):
-    t = sorted(set(x for x in tags if not x.startswith(('comb-', 'list'))))
-    return ','.join(t) or 'plain'
+    """Coarse, stable description of a part from its generator tags (used only when no single identifier reproduces)."""
+    out = set()
+    for t in tags:
+        t = t.split('/')[-1]
+        if '@' in t:
+            a, b = t.split('@')
+            if a.startswith('ident-'):
+                continue
+            out.add('%s:%s' % (b, COARSE.get(a, 'escape')))
+        elif t.startswith(('selarg', 'nth', 'pe', 'pc', 'ns-', 'universal', 'relative')):
+            out.add(t.split(':')[0] if t.startswith('nth:') else t)
+    return ','.join(sorted(out)) or 'plain'
+
+
+def narrow(ctx, failing):
+    """failing: [(case, result, clause)] -> signature per entry.  Looks for the smallest input that shows the same kind of
+    failure of the same clause: first every single identifier / string of S placed in a minimal selector of its own
+    (alone, then after `a ` = behind a descendant combinator), then every top-level simple selector of S."""
+    cands = []          # (entry index, text, label)
+    for idx, (c, d, clause) in enumerate(failing):
+        seen = set()
+        for kind, raw in sg.lex_idents(c['S']):
+            atom = sg.atom_for(kind, raw)
+            if atom is None or sg.lex_class(raw) == 'plain' or atom in seen:
+                continue
+            seen.add(atom)
+            lab = '%s:%s' % (kind, sg.lex_class(raw))
+            cands.append((idx, atom, lab, 0))
+            cands.append((idx, 'a ' + atom, lab + '/after-descendant-combinator', 1))
+        for pt, ptags in c.get('parts', []):
+            if pt not in seen:
+                seen.add(pt)
+                cands.append((idx, pt, 'simple:' + tag_sig(ptags), 2))
+    res = judge_texts(ctx, [t for _, t, _, _ in cands]) if cands else []
+    sigs = []
+    for idx, (c, d, clause) in enumerate(failing):
+        kind = d[clause][5:]
+        hits = [(rank, lab, t, r) for (o, t, lab, rank), r in zip(cands, res) if o == idx and r.get(clause) == d[clause]]
+        if hits:
+            hits.sort(key=lambda h: (h[0], h[1]))
+            rank, lab, t, r = hits[0]
+            sigs.append(('%s|%s' % (kind, lab), {'minimal': t, 'minimal_result': {k: v for k, v in r.items() if k in ('P', 'P2', 'E')}}))
+        else:
+            sigs.append(('%s|whole:%s' % (kind, tag_sig(c.get('tags', []))), {}))
+    return sigs
 
 
 def check_cases(ctx, cases):
     res = judge_texts(ctx, [c['S'] for c in cases])
     failing = []
     for c, d in zip(cases, res):
-        v = d['verdict']
         for t in c.get('tags', []):
             ctx.seen('input-features', t.split('/')[-1])
-        if v == 'undecided':
-            ctx.undecided('unreadable', d.get('why'))
-        elif v.startswith('skip:'):
-            ctx.stat(v)
-        elif v == 'ok':
-            ctx.stat('held:' + d['how'])
+        judged = False
+        for clause in ('v1', 'v2'):
+            v = d.get(clause, 'undecided:missing')
+            if v.startswith('undecided'):
+                ctx.undecided('unreadable', v)
+            elif v.startswith('skip:'):
+                ctx.stat('%s-%s' % (clause, v))
+            elif v.startswith('ok:'):
+                ctx.stat('%s-held:%s' % (clause, v[3:]))
+                judged = True
+                if v == 'ok:same-canonical-form':
+                    ctx.seen('texts-differ-but-same-selector', ','.join(sorted(set(
+                        '%s:%s' % (k, sg.lex_class(r)) for k, r in sg.lex_idents(c['S']) if sg.lex_class(r) != 'plain' or k == 'attr-string')))[:100])
+            else:
+                judged = True
+                failing.append((c, d, clause))
+        if judged:
             ctx.nontrivial(c['S'])
-            if d['how'] != 'same-text':
-                ctx.seen('canonical-fallback-used-for', tag_sig([t for t in c.get('tags', []) if '@' in t or t.startswith(('attr-val', 'str-'))])[:120])
-        else:
-            ctx.nontrivial(c['S'])
-            failing.append((c, d))
     if not failing:
         return
-    # narrow the signature: which single simple selector of S shows the same kind of failure on its own?
-    ptexts, owner = [], []
-    for idx, (c, d) in enumerate(failing):
-        for pt, ptags in c.get('parts', []):
-            ptexts.append(pt)
-            owner.append((idx, ptags))
-    pres = judge_texts(ctx, ptexts) if ptexts else []
-    for idx, (c, d) in enumerate(failing):
-        kind = d['verdict'][5:]
-        culprits = [(tag_sig(ptags), ptexts[q], pres[q]) for q, (o, ptags) in enumerate(owner)
-                    if o == idx and pres[q]['verdict'] == d['verdict']]
-        if culprits:
-            culprits.sort(key=lambda x: (len(x[0]), x[0]))
-            sig = '%s|%s' % (kind, culprits[0][0])
-            detail = dict(d, minimal=culprits[0][1], minimal_result={k: v for k, v in culprits[0][2].items() if k != 'verdict'})
-        else:
-            sig = '%s|whole:%s' % (kind, tag_sig(c.get('tags', [])))
-            detail = dict(d)
+    for (c, d, clause), (sig, extra) in zip(failing, narrow(ctx, failing)):
+        detail = {k: v for k, v in d.items() if k in ('P', 'P2', 'E', 'note', clause)}
+        detail.update(extra)
         detail['S'] = c['S']
         ctx.violation(sig, c, detail)
 
